@@ -1,4 +1,5 @@
 import DM.Gen.GF
+import DM.Model.Basic
 /-
 Model of `errorcode/galois.rs`: GF(256) arithmetic through the LOG / ANTI_LOG tables
 (regenerated from the code) exactly as `impl Mul/Div for GF` does it.
@@ -12,6 +13,47 @@ open DM.Gen
 def alog (i : Nat) : Nat := byteAt ALOGP i
 /-- `LOG[a]` -/
 def glog (a : Nat) : Nat := byteAt LOGP a
+
+/-! ### array-backed table access for compiled code (`@[csimp]`, proved equal) -/
+
+def alogTable : Array Nat := ((List.range 255).map (byteAt ALOGP)).toArray
+def glogTable : Array Nat := ((List.range 256).map (byteAt LOGP)).toArray
+
+def alogFast (i : Nat) : Nat := alogTable.getD i 0
+def glogFast (a : Nat) : Nat := glogTable.getD a 0
+
+theorem byteAt_zero_of_lt (t n i : Nat) (ht : t < 2 ^ (8 * n)) (hi : n ≤ i) : byteAt t i = 0 := by
+  unfold byteAt
+  have : t >>> (8 * i) = 0 := by
+    rw [Nat.shiftRight_eq_div_pow]
+    apply Nat.div_eq_of_lt
+    calc t < 2 ^ (8 * n) := ht
+      _ ≤ 2 ^ (8 * i) := Nat.pow_le_pow_right (by omega) (by omega)
+  rw [this]; rfl
+
+theorem table_getD (t n i : Nat) (ht : t < 2 ^ (8 * n)) :
+    (((List.range n).map (byteAt t)).toArray).getD i 0 = byteAt t i := by
+  rw [toArray_getD, List.getD_eq_getElem?_getD, List.getElem?_map]
+  by_cases hi : i < n
+  · rw [List.getElem?_range hi]; rfl
+  · have : (List.range n)[i]? = none := by
+      rw [List.getElem?_eq_none]; simp; omega
+    rw [this]
+    simp [byteAt_zero_of_lt t n i ht (by omega)]
+
+theorem ALOGP_lt : ALOGP < 2 ^ (8 * 255) := by decide +kernel
+theorem LOGP_lt : LOGP < 2 ^ (8 * 256) := by decide +kernel
+
+@[csimp] theorem alog_eq_fast : @alog = @alogFast := by
+  funext i
+  unfold alog alogFast alogTable
+  exact (table_getD ALOGP 255 i ALOGP_lt).symm
+
+@[csimp] theorem glog_eq_fast : @glog = @glogFast := by
+  funext a
+  unfold glog glogFast glogTable
+  exact (table_getD LOGP 256 a LOGP_lt).symm
+
 
 /-- `impl Add for GF` (and `Sub`, `Neg` is the identity). -/
 abbrev gadd (a b : Nat) : Nat := a ^^^ b
